@@ -271,5 +271,8 @@ def _get_action_form_arguments(left, right):
 
     if isinstance(left, BaseForm):
         coefficients += left.coefficients()
+    elif isinstance(left, BaseCoefficient):
+        # `left` can be a Coefficient in V (= V**): it is a coefficient of the action.
+        coefficients += (left,)
 
     return arguments, coefficients
